@@ -5,6 +5,7 @@ checks=${@:-$id}
 src=/verif/seeded/${id}_$k
 [ -d "$src" ] || src=/tmp/seedout_$id/$k
 wt=/tmp/sv_${id}_$k
+mkdir -p /tmp/seedres
 out=/tmp/seedres/${id}_$k.txt
 {
 git -C /repo worktree remove --force $wt 2>/dev/null
